@@ -17,6 +17,23 @@ def contains(v, needle):
     return False
 
 
+def stored_immediates(path):
+    """[(value, node)] of what a path stores as the `imm` field of the item it rebuilds: `d['imm'] = v` on the attribute dict, or a
+    dict display `{**d, 'imm': v}`."""
+    out = []
+    for ev in path.events:
+        if ev[0] == 'setitem' and ev[2] == C('imm'):
+            out.append((ev[3], ev[4]))
+        elif ev[0] == 'value' and isinstance(ev[1], tuple):
+            seen = set()
+            for d in find_all(ev[1], lambda t: t[0] == 'dict' and len(t) > 1 and isinstance(t[1], tuple)):
+                for pair in d[1]:
+                    if isinstance(pair, tuple) and len(pair) == 2 and pair[0] == C('imm') and pair[1] not in seen:
+                        seen.add(pair[1])
+                        out.append((pair[1], ev[2]))
+    return out
+
+
 def find_all(v, pred, out=None):
     out = [] if out is None else out
     if isinstance(v, tuple):
@@ -352,12 +369,20 @@ def wrapper_call_sites(facts, wr):
                         baked = True
                     if ev2[0] == 'value' and ev2[1][0] == 'new' and contains(ev2[1], v):
                         baked = True
+                    if ev2[0] == 'value' and ev2[1][0] == 'mcall' and ev2[1][2] == '__class__' and contains(ev2[1], v):
+                        baked = True       # the item is rebuilt from a field dict that holds the value
+                    if ev2[0] == 'mcall' and ev2[2] in ('append', 'extend') and contains(ev2[3], v):
+                        baked = True
                     if ev2[0] == 'return' and contains(ev2[1], v):
                         returned = True
                 post = 0
                 for ev2 in p.events[i + 1:]:
                     if ev2[0] == 'setitem' and contains(ev2[3], v):
                         post = additive_const(ev2[3], v)
+                    if ev2[0] == 'value' and ev2[1][0] == 'dict':
+                        for k_, val_ in ev2[1][1]:
+                            if contains(val_, v):
+                                post = additive_const(val_, v)
                 item_v = v[2][w['item']]
                 flag = None
                 for t, pol, _ in p.conds:
